@@ -143,6 +143,8 @@ def shape_of(result):
             out.append((fname, "Some"))
         elif t == "None":
             out.append((fname, "None"))
+        elif re.sub(r"\s", "", t) in ("::alloc::vec::Vec::new()", "Vec::new()", "vec![]", "alloc::vec::Vec::new()"):
+            out.append((fname, "Empty"))
     return tuple(out)
 
 
@@ -357,6 +359,29 @@ def run(F, rep, fm, reach):
                     if x[0] == "F" and x[1] not in pfields:
                         pfields.append(x[1])
                 common = [f for f in pfields if f in efields]
+                empties = [f for f, k_ in shape_of(result) if k_ == "Empty"]
+                if len(common) < 1 and not pfields and empties and all(x[0] == "D" and x[1] is not None for x in pseq):
+                    # a production for the EMPTY node (`{:}` for a map without elements): the emitter's text with its empty lists left out
+                    rest = [x for x in eseq if not (x[0] == "F" and x[1] in empties)]
+                    if not any(x[0] in ("F", "U") for x in rest):
+                        texts = {""}
+                        for x in rest:
+                            if x[0] == "L":
+                                texts = {t_ + x[1] for t_ in texts}
+                            elif x[0] in ("L?", "L~"):
+                                texts = texts | {t_ + x[1] for t_ in texts}
+                        lang = {""}
+                        for x in pseq:
+                            lang = {a + b for a in lang for b in x[1]}
+                        lang_ns = {nospace(a) for a in lang}
+                        n8 += 1
+                        tag = "%s<->%s" % (it["name"], p)
+                        bad = sorted(t_ for t_ in {nospace(t_) for t_ in texts} if t_ not in lang_ns)
+                        rec = ("C08-R8", "%s:empty-node" % tag if not bad else "%s:empty-node:%s" % (tag, re.sub(r"[^\x21-\x7e]", "?", bad[0])[:12]),
+                               "Formatter::%s writes `%s` for a node whose `%s` is empty; the parser %s() builds that node only from %s: the empty node is formatted as something else" % (
+                                   it["name"], bad[0] if bad else "", "/".join(empties), p, sorted(lang_ns)[:4]), {"emitter": it["name"], "parser": p, "empty_fields": empties, "accepts": sorted(lang_ns)[:4]})
+                        evals.append((tag, [rec] if not bad else [], [rec] if bad else [], shape_of(result)))
+                    continue
                 if len(common) < 1:
                     continue
                 tag = "%s<->%s%s" % (it["name"], p, ("#%d" % ri) if len(results) > 1 else "")
